@@ -197,7 +197,7 @@ func genDataFiles(t *rapid.T) []TarFile {
 		if rapid.IntRange(0, 5).Draw(t, "sym") == 0 {
 			files = append(files, TarFile{Name: name, Type: "symlink", Link: "target" + genFromAlphabet(t, "lt", "abc", 0, 3)})
 		} else {
-			size := rapid.SampledFrom([]int{0, 1, 10, 511, 512, 513, 4096}).Draw(t, "fsize")
+			size := rapid.SampledFrom([]int{0, 1, 10, 511, 512, 513, 4096, 4096, 32767, 32769, 70000}).Draw(t, "fsize")
 			b := make([]byte, size)
 			x := uint32(rapid.IntRange(1, 1<<20).Draw(t, "fseed"))
 			for j := range b {
